@@ -71,7 +71,7 @@ Proof.
     rewrite Hlen. cbn [Nat.eqb]. subst G.
     destruct (Nat.ltb_spec (tcurr st) 2) as [|H2]; [auto|].
     destruct (Nat.ltb_spec (length buf) (tcurr st - 2)); [auto|].
-    destruct (Nat.ltb_spec (length buf) (tcurr st)); [auto|].
+    destruct (Nat.ltb_spec (length buf) (tcurr st)); [lia|].
     set (pos := tcurr st) in *.
     set (buf' := firstn (pos - 2) buf ++ cmd_header ++ skipn pos buf).
     assert (Hsk : skipn pos buf' = skipn pos buf) by (apply header_splice_skipn; assumption).
